@@ -30,20 +30,33 @@ pub fn res(r: exmex::ExResult<Sym>) -> String {
 }
 
 pub fn gen(r: &mut Rng, tier: &str, i: usize, stats: &mut BTreeMap<String, u64>) -> String {
+    gen_profile(r, tier, i, stats, "default")
+}
+
+pub fn gen_profile(r: &mut Rng, tier: &str, i: usize, stats: &mut BTreeMap<String, u64>, profile: &str) -> String {
     let t = gen_table(r);
     let big = tier == "thorough" && r.chance(1, 200) || (tier == "quick" && i % 1500 == 7);
     let cfg = ChainCfg {
         max_depth: if big { 1 } else { 1 + r.below(5) },
         max_len: if big { 60 + r.below(180) } else { *r.pick(&[2usize, 3, 4, 6, 8]) },
         sub_len: if big { 2 } else { *r.pick(&[1usize, 2, 3, 4]) },
-        lit_pct: *r.pick(&[20usize, 40, 60, 80]),
+        lit_pct: if profile == "lits" { *r.pick(&[60usize, 75, 90]) } else { *r.pick(&[20usize, 40, 60, 80]) },
         n_vars: 1 + r.below(5),
-        call_pct: *r.pick(&[0usize, 0, 8, 20]),
+        call_pct: if profile == "calls" { *r.pick(&[25usize, 40, 60]) } else { *r.pick(&[0usize, 0, 8, 20]) },
         un_pct: *r.pick(&[0usize, 10, 25]),
         braced_pct: *r.pick(&[0usize, 0, 10]),
     };
-    let c = gen_chain(r, 0, &t, &cfg);
-    let call_form = r.chance(3, 4);
+    let mut c = gen_chain(r, 0, &t, &cfg);
+    // keep generated expressions below ~150 operators unless a long chain was asked for
+    let mut tries = 0;
+    while !big && c.n_ops() > 150 && tries < 20 {
+        c = gen_chain(r, 0, &t, &cfg);
+        tries += 1;
+    }
+    if !big && c.n_ops() > 150 {
+        c = Chain::Single(Atom::Lit("1".into()));
+    }
+    let call_form = profile == "calls" || r.chance(3, 4);
     let space_pct = *r.pick(&[0usize, 0, 20, 60]);
     let (text, sp) = render_gen(&c, &t, call_form, r, space_pct);
     *stats.entry(format!("ops_{}", c.n_ops().min(9))).or_insert(0) += 1;
